@@ -169,10 +169,10 @@ void async_scope_end_of_scope(struct async_scope* self)
 __CPROVER_requires(self == &S && FRESH_LIN && G.my_refs == 0)
 __CPROVER_assigns(S.opState_, G.lin_old, G.lin_new, G.lin_count, G.evt_set, G.my_refs)
 __CPROVER_ensures(G.lin_count == 1 && G.lin_new == (G.lin_old & ~(size_t)1) && G.my_refs == 0) /* closes, count untouched */
+__CPROVER_ensures((G.evt_set >= 1) ==> (G.lin_new == 0)) /* join event set only when closed and nothing outstanding */
+__CPROVER_ensures((G.lin_new == 0 && G.lin_old != 0) ==> (G.evt_set == 1)) /* and the step that MAKES (closed and count 0) true sets it */
 #ifdef VF_SINGLE_SETTER
-__CPROVER_ensures((G.evt_set >= 1) == (G.lin_new == 0 && G.lin_old != 0)) /* the join event is set by the step that MAKES (closed and count 0) true, and by no other */
-#else
-__CPROVER_ensures((G.evt_set >= 1) == (G.lin_new == 0)) /* join event set iff closed and nothing outstanding */
+__CPROVER_ensures((G.evt_set >= 1) ==> (G.lin_old != 0)) /* ... and no other step does: a close that finds (closed, 0) must not set the event again (it could overtake the real setter) */
 #endif
 __CPROVER_ensures(G.evt_set <= 1 && !OPEN(S.opState_))
 /*@BODY end_of_scope*/
@@ -304,7 +304,7 @@ void lemma_scope_protocol(void) {
 #ifdef VF_SINGLE_SETTER
   else { __CPROVER_assume(STEP_CLOSE(o, n)); evt = (n == 0 && o != 0); }
 #else
-  else { __CPROVER_assume(STEP_CLOSE(o, n)); evt = (n == 0); }
+  else { __CPROVER_assume(STEP_CLOSE(o, n)); evt = VF_nondet_bool() ? 1 : 0; __CPROVER_assume((!evt || n == 0) && (!(n == 0 && o != 0) || evt)); }   /* end_of_scope's quick contract */
 #endif
   VF_CANARY("lemma premises satisfiable");
   /* (i) every guarantee step is allowed by every other party's rely, provided the stepping party only gives up units it owns */
